@@ -236,4 +236,26 @@ theorem overflowingShr_eq_vartime {a : List Nat} (ha : WF a) (hn0 : a ≠ []) (h
     rw [← this]
   · rw [if_neg h, overflowingShrVartime_overflow a (Nat.not_lt.mp h)]
 
+/-- `wrapping_shl_vartime` / `wrapping_shr_vartime` = the value component of the overflowing form
+    (zero on overflow) -/
+theorem wrappingShlVartimeU_eq {a : List Nat} (ha : WF a) (s : Nat) :
+    wrappingShlVartimeU a s = (overflowingShlVartime a s).1 := by
+  have hv := shlV_val ha s
+  unfold wrappingShlVartimeU unwrapOr
+  by_cases h : s < 64 * a.length
+  · rw [(overflowingShlVartime_spec ha h).1]
+    exact uselect_spec true (uzero_WF _) hv.2.2 (by rw [hv.2.1, uzero_length])
+  · rw [overflowingShlVartime_overflow a (Nat.not_lt.mp h)]
+    exact uselect_spec false (uzero_WF _) (uzero_WF _) rfl
+
+theorem wrappingShrVartimeU_eq {a : List Nat} (ha : WF a) (s : Nat) :
+    wrappingShrVartimeU a s = (overflowingShrVartime a s).1 := by
+  have hv := shrV_val ha s
+  unfold wrappingShrVartimeU unwrapOr
+  by_cases h : s < 64 * a.length
+  · rw [(overflowingShrVartime_spec ha h).1]
+    exact uselect_spec true (uzero_WF _) hv.2.2 (by rw [hv.2.1, uzero_length])
+  · rw [overflowingShrVartime_overflow a (Nat.not_lt.mp h)]
+    exact uselect_spec false (uzero_WF _) (uzero_WF _) rfl
+
 end CB.Shift
